@@ -206,9 +206,17 @@ func (rb *Rebalancer) UpsertServer(u *url.URL, options ...ServerOption) error {
 	defer rb.mtx.Unlock()
 
 	if s, i := rb.findServer(u); i != -1 {
-		// The balancer may currently hold an adjusted weight for this server: the options
-		// apply to the configured weight, and so does the weight read back below.
-		_ = rb.next.UpsertServer(u, Weight(s.origWeight))
+		// The balancer may currently hold an adjusted weight for this server: the options apply to
+		// the configured weight. Nothing is touched if one of them is refused.
+		srv := &server{url: s.url, weight: s.origWeight}
+		for _, o := range options {
+			if err := o(srv); err != nil {
+				return err
+			}
+		}
+		s.origWeight = srv.weight
+		rb.reset()
+		return nil
 	}
 	if err := rb.next.UpsertServer(u, options...); err != nil {
 		return err
